@@ -43,7 +43,8 @@ CLAIMS.update({
         "Decides: first-match-wins in configured order; no protocol accepts a connection of the wrong TLS parity; the tests "
         "are total (cannot raise on any line) and pure; the shipped lists end in a catch-all per parity with nothing dead "
         "behind it; the sniff peeks exactly one byte with MSG_PEEK, wraps iff it is 0x16, inside the worker, and the "
-        "wrapped socket is what gets served. Which protocol wins for lines that nearly match several shapes is not decided.",
+        "wrapped socket is what gets served; WAP auto-detection agrees with the header table the header reader builds (both "
+        "evaluated on scripted header blocks). Which protocol wins for lines that nearly match several shapes is not decided.",
         "Trusted: socketserver keeps the accepted socket in self.request; ssl.SSLSocket is the type of wrapped sockets.",
     ),
     "C03": (
@@ -54,9 +55,10 @@ CLAIMS.update({
         "Necessary conditions only: every protocol handle() converts not-found and I/O errors from handler selection into "
         "its own error reply; status-line protocols write exactly one status and no body after an error; every "
         "request-derived partial operation on the request path is guarded on every path; handler lookup never falls "
-        "through; the only persistent writes are the two cache files; mailbox constructors' non-I/O errors are converted. "
+        "through; the only persistent writes are the two cache files; mailbox/archive constructors' non-I/O errors are converted "
+        "and none may create what a request names; partial operations on file content a handler parses are guarded too. "
         "Absence of all internal errors, bounded time and reply grammar are not decided.",
-        "Trusted: served content is well formed (partial operations on file content are not tracked); Python exception "
+        "Trusted: Python exception "
         "semantics of the seven operation kinds; taint seeds (request line, selector, search string, rfile, entry getters).",
     ),
     "C16": (
@@ -67,7 +69,8 @@ CLAIMS.update({
         "builder and symlink resolution have no file-system effect (members come from the in-memory index only); every handler "
         "that hands getfspath() to a real-file API refuses archive VFS objects (evaluated against the real class hierarchy, so a "
         "vacuous isinstance test does not count); the inner chain is the ordinary multiplexer on the archive VFS. Equivalence "
-        "with the extracted tree is not decided.",
+        "with the extracted tree is not decided in general; the index lookup is evaluated on a representative index (members, "
+        "non-members, prefixes, directories; 4 lookup histories) so that members are found and non-members refused.",
         "Trusted: zipfile.ZipFile methods act only on the already opened archive.",
     ),
 })
@@ -89,7 +92,7 @@ CLAIMS.update({
         "effect-site enumeration of deserialisations + try/handler coverage + failure-path walk",
         "Every load of a server-written cache (pickle.load of the directory cache, shelve.open(...,'r') of the ZIP index) is inside "
         "a try whose handlers cover every exception class a truncated or zero-filled file can raise, and the failure path "
-        "regenerates without marking the data as cached. Because a pickle's only STOP opcode is its last byte, no proper prefix "
+        "regenerates without marking the data as cached (also when the flag had been set before the load). Because a pickle's only STOP opcode is its last byte, no proper prefix "
         "loads successfully, so this structural condition covers every truncation point.",
         "Trusted: CPython pickle framing; dbm backends fail at open for a truncated file (lazily detected damage is not decided).",
     ),
@@ -97,9 +100,11 @@ CLAIMS.update({
         "3/C12",
         "may-raise summaries over the call graph + lexical containment of try blocks inside per-entry loops; partial evaluation "
         "of handler tests under a missing stat result",
-        "In every loop over directory entries (all classes of the DirHandler family, with their resolved hook overrides) each call "
+        "In every loop over directory entries or over a collection the handler keeps about them (all classes of the DirHandler "
+        "family, with their resolved hook overrides) each call "
         "that can raise FileNotFound or OSError for one entry is caught inside the loop body by a handler that lets the loop go on; "
-        "the stat before handler selection is absorbed and no handler test subscripts a missing stat result.",
+        "the stat before handler selection is absorbed, no handler test subscripts a missing stat result, and handlers that open "
+        "what they serve accept only regular files/directories (path-sensitive accept analysis of canhandlerequest).",
         "Trusted: the may-raise model (handler multiplexer raises FileNotFound; stat/open/listdir raise OSError; exists/isdir/isfile do not).",
     ),
     "C13": (
@@ -121,7 +126,8 @@ CLAIMS.update({
         "The connection handler catches I/O errors and Exception around protocol.handle(), logs them with the exception and protocol "
         "object, never re-raises; both servers wrap finish_request and shut the request down in a finally; the protocols' I/O-error "
         "replies do not index exception arguments; every file/archive/mailbox acquisition on the request path is scoped; the log "
-        "line carries client address, protocol class and the exception's own class.",
+        "line carries client address, protocol class and the exception's own class on every path of the logger, which keeps no "
+        "state; error writers tolerate a None strerror.",
         "Trusted: CPython reference counting closes a descriptor whose last reference dies; socketserver's handle_error/shutdown_request.",
     ),
 })
@@ -136,18 +142,21 @@ CLAIMS.update({
         "leaves the entry's size unset and generated menus are announced with the unknown-length marker, so a Gopher+ length "
         "header can only be the stat size of bytes that are copied verbatim; HEAD reaches no body-producing call and sends the "
         "same header writes as GET; the advertised MIME type is adjust(entry.getmimetype()) and the entry's MIME fields hold "
-        "only table/config/constant data. Equality of delivered bytes with file bytes and WML invertibility are not decided.",
+        "only table/config/constant data; the error replies of a URL protocol carry the protocol's own error type. Equality of delivered bytes with file bytes and WML invertibility are not decided.",
         "Trusted: file read/write semantics; stat size = number of bytes a verbatim copy sends (no concurrent modification).",
     ),
     "C05": (
         "3/C05",
-        "writer/reader table agreement: codec parameters of each protocol's URL encoder vs. its request decoder; "
-        "prefix/separator/flag constants on the rendering and parsing side",
+        "writer/reader agreement: codec parameters of each protocol's URL encoder vs. its request decoder; abstract evaluation "
+        "(walker with constant folding) of the request parsers, the virtual-selector splitter and the WAP prefix test on "
+        "representative targets; canonical message-sequence expressions of folder and message handlers",
         "Render/parse agreement only: each URL-based protocol percent-encodes local selectors with exactly the codec its request "
         "parser decodes with (one layer, safe characters exclude the parser's separators); the WAP prefix and Gemini query "
         "prefix are the same value on both sides; the virtual-selector separator emitted is one the parser splits on; child "
         "selectors are selectorbase/name resolved through the handler chain on the same VFS; folder handlers number and flag "
-        "messages the way the message handlers parse them. That every followed link succeeds is behavioural and not decided.",
+        "messages the way the message handlers parse them and both step through the same message sequence; each request parser, "
+        "evaluated on 12 targets with reserved characters, hands the handler chain the selector the link encoder was given. "
+        "That every followed link succeeds is behavioural and not decided.",
         "Trusted: urllib quote/unquote are inverse for equal codec parameters.",
     ),
     "C06": (
@@ -158,7 +167,8 @@ CLAIMS.update({
         "exactly once, unconditionally; every selector reaching handler selection went through slashnormalize(), which yields a "
         "leading '/' on every path; every protocol decodes request text (percent-encoding, query strings, request bodies, the "
         "request line) as UTF-8 with surrogateescape; each protocol's adjust function maps the menu type to its own listing type "
-        "and is total. Equality of the rendered listings is not decided.",
+        "and is total; link targets and default host/port are filled in the same way for every protocol (evaluated on "
+        "representative entries). Equality of the rendered listings is not decided.",
         "Trusted: Python codec semantics.",
     ),
     "C07": (
@@ -168,20 +178,22 @@ CLAIMS.update({
         "Structural clauses: entries are built from a sorted name list; every loop over listdir() either iterates a sorted "
         "sequence or has an order-insensitive body for every concrete class (with its hook overrides); the ignore pattern is "
         "consulted only while listing; dot-files never enter the UMN listing; the comparator is pure and reads only name/number; "
-        "a name is appended once, iff the filter accepted it. Set equality with the directory contents is not decided.",
+        "a name is appended once, iff the filter accepted it; listdir returns the OS's names unchanged. Set equality with the directory contents is not decided.",
         "Trusted: list.sort is deterministic for strings.",
     ),
     "C08": (
         "3/C08",
         "abstract evaluation of the comparator on representatives of every order type; path enumeration of the merge loop per "
-        "block type; structural rules for field override, .cap and Host=+/Port=+",
+        "block type; structural rules for field override, .cap and Host=+/Port=+; abstract evaluation of the link-file reader "
+        "on 12 scripted blocks",
         "Ordering: the comparator touches its arguments only through comparisons, so evaluating its body on representatives of "
         "all 25 x 3 order types of (num1, num2, 0) x (title1 ? title2) is exhaustive; results are checked against the documented "
         "bucket order and antisymmetry, and the final sort uses this comparator after the merge. Merge: per path of "
         "MergeLinkFiles's loop and block type (X, -, other) a block is appended once, merged into the walked entry, or hides it "
         "(idempotently); the selector index is not shrunk and nothing is dropped by selector text; mergeentries overrides only set "
-        "fields; .cap Type=X/- hides, anything else overrides; Host=+/Port=+ leave the field unset. The text of link-file lines "
-        "(Path= forms, abstract continuation) is not decided.",
+        "fields; .cap Type=X/- hides, anything else overrides; Host=+/Port=+ leave the field unset; the link-file reader, evaluated "
+        "on 12 scripted blocks (Path= forms, Host/Port +, Numb, Abstract continuation, comments), yields the documented entry. "
+        "Link-file text outside these representatives is not decided.",
         "Trusted: the walker's constant folding of comparisons and integer arithmetic.",
     ),
     "C14": (
@@ -192,7 +204,7 @@ CLAIMS.update({
         "initialisation from configuration; no in-place mutation of module-level, class-level, interpreter-wide or server-object "
         "state; protocol and handler objects are constructed per request and not stored in shared state; the header cache is per "
         "connection; the fork child always _exit()s, the parent records the child, closes its copy and returns; the thread worker "
-        "reports errors and always shuts down. Equality of concurrent and sequential responses under all interleavings is not decided.",
+        "reports errors and always shuts down, whichever call on the server object fails. Equality of concurrent and sequential responses under all interleavings is not decided.",
         "Trusted: CPython's GIL makes a single name rebinding atomic; cache-file sharing is covered by C11.",
     ),
     "C15": (
@@ -201,7 +213,8 @@ CLAIMS.update({
         "Structural clauses: +INFO is '+INFO: ' plus the output of the very function that renders plain Gopher menu lines; every "
         "advertised fixed block has its renderer and one block is added per extended attribute; the length prefix of a + request "
         "describes the body or is the unknown marker (R04b); attribute content lines carry the one-space prefix (R13d); sidecar "
-        "files are read per configured extension in text mode, right-stripped and newline-joined. Sidecar line fidelity beyond "
+        "files are read per configured extension in text mode, right-stripped and newline-joined; item information depends on no "
+        "module- or class-level state. Sidecar line fidelity beyond "
         "that is not decided.",
         "Trusted: as for C04 and C13.",
     ),
@@ -213,7 +226,9 @@ CLAIMS.update({
         "the compiler emits has an interpreter handler; opcode values follow the TAL order of operations and the commands on an "
         "element are sorted before emission; each handler jumps through the tuple position where the compiler stored the "
         "end-of-element symbol, which is defined right before the end-scope command; a scope is opened for every element that "
-        "gets a symbol; pushed and restored state tuples agree field by field; every handler path moves the program counter. "
+        "gets a symbol; pushed and restored state tuples agree field by field and contain every register nested code can change; "
+        "every handler path moves the program counter; every pass of a repeat starts from the element's initial state; local "
+        "variables are looked up innermost scope first. "
         "That expansion equals the TAL/TALES specification is not decided.",
         "Trusted: the list of TAL 1.4 operation priorities.",
     ),
@@ -225,7 +240,7 @@ CLAIMS.update({
         "or an html.escape'd result - a raw result only where the template asked for structure; with allowPythonPath false no "
         "eval/exec is reachable anywhere in simpletal, the flag is stored unchanged and the TAL handler passes the configured "
         "option; every pushLocals/addRepeat sets a flag that is saved per element and every popLocals/removeRepeat runs only under "
-        "it. Pass-through fidelity, idempotence and context equality are not decided.",
+        "it, and the flags themselves are saved around a nested template run. Pass-through fidelity, idempotence and context equality are not decided.",
         "Trusted: html.escape semantics; simpleTALUtils is not on the expansion path.",
     ),
 })
